@@ -53,6 +53,14 @@ def len_atomizer(fn, at_bb, hay_root=None):
             inner = peel(peel(e[1])[1])
             if inner[0] == "call" and str(inner[1]).endswith("::position"):
                 return "first_letter_pos"
+            if inner[0] == "local":
+                # `let first = if cond { needle.iter().position(..) } else { None }`: the Some payload can only be
+                # the position (a None definition has no payload)
+                ds = [d for _, _, d in fn.def_exprs(inner[1])]
+                pos = [d for d in ds if d[0] == "call" and str(d[1]).endswith("::position")]
+                rest = [d for d in ds if d not in pos and not (d[0] == "agg" and str(d[1]).endswith("Option::None"))]
+                if pos and not rest:
+                    return "first_letter_pos"
         return None
     return atomize
 
